@@ -57,6 +57,10 @@ def groups(tier, seed):
     return out
 
 
+def count(group):
+    """closed-form size of a group (independent of the generator): test lists x 4 dimensions x 3 feature families"""
+    return (27 if group["gi"] % 4 == 0 else 3) * 4 * 3
+
 def cases(group):
     menu = [[1, 1, 1], [3, 1, 2], [2, 2, 2]]
     tests = [list(t) for t in itertools.product([1, 2, 3], repeat=3)] if group["gi"] % 4 == 0 else menu
